@@ -395,8 +395,13 @@ func buildCompoundOperator(o interface{}, depth int, operator string) (string, b
 
 				ands = append(ands, bldexpr)
 			} else {
+				// a constant string, number or boolean is echoed as raw input, as for every other operator
+				rawOperand, err := parseOperand(andarr[i], false, false)
+				if err != nil {
 
-				return "", false, fmt.Errorf("and operands must be an array of objects")
+					return "", false, fmt.Errorf("and operands must be an array of objects or constants")
+				}
+				ands = append(ands, rawOperand)
 			}
 		}
 		if depth > 0 {
